@@ -54,8 +54,56 @@ class Q:
         rec = {"tag": tag, "verdict": verdict, "seconds": round(dt, 3), "asserts": n}
         if verdict == "unknown":
             rec["reason"] = s.reason_unknown()
+        # second opinion (thorough tier, or VERIF_CROSS=1): a sample of the decided queries is re-run under cvc5; a contradiction
+        # between the two solvers makes the query inconclusive
+        if verdict in ("sat", "unsat") and Q.want_cross():
+            other = cross_check(s)
+            rec["cvc5"] = other
+            if other in ("sat", "unsat") and other != verdict:
+                rec["reason"] = f"solvers disagree (z3 {verdict}, cvc5 {other})"
+                rec["verdict"] = verdict = "unknown"
+                model = None
         Q.log.append(rec)
         return verdict, model
+
+    ncross = 0
+
+    @staticmethod
+    def want_cross():
+        if not (os.environ.get("VERIF_CROSS") == "1" or os.environ.get("VERIF_TIER") == "thorough"):
+            return False
+        k = len(Q.log)
+        # the first few decided queries of every worker process, then every 40th
+        if Q.ncross < 3 or k % 40 == 0:
+            Q.ncross += 1
+            return True
+        return False
+
+
+def cross_check(solver, limit_ms=15000):
+    """re-run the assertions of a z3 solver under cvc5 (SMT-LIB2 text); returns 'sat' | 'unsat' | 'unknown' | 'error:...'"""
+    try:
+        import cvc5
+        txt = solver.to_smt2()
+        if len(txt) > 400000:
+            return "skipped (query too large)"
+        slv = cvc5.Solver()
+        slv.setOption("tlimit-per", str(limit_ms))
+        slv.setLogic("ALL")
+        prs = cvc5.InputParser(slv)
+        prs.setStringInput(cvc5.InputLanguage.SMT_LIB_2_6, txt, "q")
+        sm = prs.getSymbolManager()
+        out = "unknown"
+        while True:
+            cmd = prs.nextCommand()
+            if cmd.isNull():
+                break
+            r = str(cmd.invoke(slv, sm)).strip()
+            if r in ("sat", "unsat", "unknown"):
+                out = r
+        return out
+    except Exception as e:  # noqa
+        return "error:" + type(e).__name__
 
 
 def alt_dir():
@@ -308,7 +356,11 @@ def write_evidence(prop, tier, results, wall, extra):
                        "unsat": sum(1 for q in queries if q["verdict"] == "unsat"),
                        "sat": sum(1 for q in queries if q["verdict"] == "sat"),
                        "unknown": sum(1 for q in queries if q["verdict"] == "unknown"),
-                       "seconds": round(sum(q["seconds"] for q in queries), 2)},
+                       "seconds": round(sum(q["seconds"] for q in queries), 2),
+                       "cvc5_cross_checked": sum(1 for q in queries if "cvc5" in q),
+                       "cvc5_agree": sum(1 for q in queries if q.get("cvc5") in ("sat", "unsat") and q.get("cvc5") == q["verdict"]),
+                       "cvc5_no_opinion": sum(1 for q in queries if "cvc5" in q and q.get("cvc5") not in ("sat", "unsat")),
+                       "cvc5_disagree": sum(1 for q in queries if str(q.get("reason", "")).startswith("solvers disagree"))},
             "traces_validated_against_impl": extra.get("validated", 0),
             "validation": extra.get("validation", []),
             "replays": extra.get("replays", []),
